@@ -107,13 +107,46 @@ def runRev (kv0 : Kv) : List Op → Kv
   | [] => kv0
   | op :: h => (step (runRev kv0 h) op).1
 
+/-! ## executable specification of the file-store part (used by the theorems AND by the driver's SPEC verdicts) -/
+
+/-- the user-visible directory prefix: `p` with exactly one trailing "/" (the root "" stays "") -/
+def userDir (p : Path) : Path := if p = [] ∨ p.getLast? = some '/' then p else p ++ ['/']
+
+/-- SPEC of a history (most recent first): the last value stored under `k` unless deleted afterwards -/
+def lastWrite (kv0 : Kv) : List Op → Path → Option Bytes
+  | [], k => kv0.get (kvKeyName k)
+  | .store k' v :: h, k => if k = k' then some v else lastWrite kv0 h k
+  | .delete k' :: h, k => if k = k' then none else lastWrite kv0 h k
+  | _ :: h, k => lastWrite kv0 h k
+
+/-- user keys whose last stored value is non-empty (and not deleted), without repetition -/
+def liveKeys (h : List Op) : List Path :=
+  ((h.filterMap (fun op => match op with | .store k _ => some k | _ => none)).eraseDups).filter
+    (fun k => nonEmpty (lastWrite [] h k))
+
+/-- path-like key: non-empty segments separated by single "/" -/
+def wfKey (k : Path) : Bool :=
+  k != [] && k.head? != some '/' && k.getLast? != some '/' &&
+  (k.zip k.tail).all (fun ab => !(ab.1 == '/' && ab.2 == '/'))
+
+/-- "non-recursive listing returns each immediate child once", as a predicate on a RESULT `r`:
+no entry twice; every entry is `dir(p)` + one segment and is, or has below it, a live key; every live
+key strictly below `dir(p)` is, or lies below, some entry. -/
+def listSpecOk (live : List Path) (p : Path) (r : List Path) : Bool :=
+  let d := userDir p
+  (r.eraseDups.length == r.length) &&
+  r.all (fun c => d.isPrefixOf c && !((c.drop d.length).contains '/') &&
+    live.any (fun k => k == c || (c ++ ['/']).isPrefixOf k)) &&
+  live.all (fun k => !(d.isPrefixOf k) || r.any (fun c => k == c || (c ++ ['/']).isPrefixOf k))
+
 /-! ## Part 2: locks over leases with explicit time -/
 
 def second : Nat := 1000000000
 
-/-- `durationGuard`: truncate to whole seconds, reject below one second -/
+/-- `durationGuard`: truncate to whole seconds, reject below one second.
+(Written with `%`: a product with the literal 10^9 makes Lean's `whnf` recurse 10^9 times.) -/
 def durationGuard (ttl : Nat) : Option Nat :=
-  let td := ttl / second * second
+  let td := ttl - ttl % second
   if td < second then none else some td
 
 structure LockSt where
